@@ -1,6 +1,9 @@
 // The enter/exit contract of a context that keeps ONE ambient slot per thread and one
-// stored value per frame (src/platform/thread_local_ctxt.rs:161-167 claims it,
-// traceparent/src/lib.rs:859-873 is proved to meet it in unit traceparent_step):
+// stored value per frame. Both implementations in the tree are PROVED to meet it:
+//   * TraceparentCtxt::{enter, exit} (traceparent/src/lib.rs:859-873), unit traceparent_step;
+//   * ThreadLocalCtxt::{enter, exit} via swap() (src/platform/thread_local_ctxt.rs:164-170,
+//     202-212), unit emit_thread_local_ctxt: one slot per context id (an id without an entry
+//     shows the empty frame), every frame active, other ids untouched.
 // an active frame SWAPS its stored value with the slot, an inactive frame touches nothing.
 // (frame0, slot0) = values before the call, (frame1, slot1) = values after it.
 pub open spec fn swap_post<V>(active: bool, frame0: V, slot0: V, frame1: V, slot1: V) -> bool {
